@@ -22,7 +22,7 @@ func amount(r *rand.Rand, scale float64) float64 {
 	case 4:
 		return -scale * 10
 	case 5:
-		return math.Round(r.Float64()*scale*2-scale)
+		return math.Round(r.Float64()*scale*2 - scale)
 	default:
 		return (r.Float64()*2 - 1) * scale * 1.5
 	}
